@@ -853,10 +853,6 @@ func main() {
 	knownSeen := 0
 	var vioList []map[string]any
 	os.MkdirAll(filepath.Join(root, "replays"), 0o755)
-	minDeadlinePer := 60 * time.Second
-	if tier == "thorough" {
-		minDeadlinePer = 180 * time.Second
-	}
 	reported := 0
 	for _, k := range order {
 		g := groups[k]
